@@ -61,6 +61,12 @@ def cplx(pts):
 
 
 # ------------------------------------------------------------------ shared checking code
+def V(rec, fkey, msg, ctx=None, **kw):
+    """Violation on the current (shard-level) case, so that --replay re-runs exactly the
+    enumeration block that contains it; `ctx` names the member of the block."""
+    rec.violation(fkey, msg if ctx is None else "%s  [at %r]" % (msg, ctx), **kw)
+
+
 def shape_witnesses(rec, cub):
     p0, p1, p2, p3 = cub
     if p0 == p1 == p2 == p3:
@@ -89,34 +95,33 @@ def valid_points(r):
 def judge_spline(rec, fk, cub, result, tol, all_quadratic, ctx, force_exact=False):
     """Oracle for one input cubic and the point list returned for it.  Returns n or None."""
     if not valid_points(result) or len(result) < 3:
-        rec.violation(fk + ":shape", "result is not a list of >= 3 finite 2-tuples: %r" % (result,), case=ctx)
+        V(rec, fk + ":shape", "result is not a list of >= 3 finite 2-tuples: %r" % (result,), ctx=ctx)
         return None
     sp = cplx(result)
     if sp[0] != cub[0] or sp[-1] != cub[3]:
-        rec.violation(fk + ":endpoints", "end points not preserved: curve %r -> %r" % (tup(cub), result), case=ctx,
-                      observed=[result[0], result[-1]], expected=[tup(cub)[0], tup(cub)[3]])
+        V(rec, fk + ":endpoints", "end points not preserved: curve %r -> %r" % (tup(cub), result), ctx=ctx,
+          observed=[result[0], result[-1]], expected=[tup(cub)[0], tup(cub)[3]])
         return None
     if not all_quadratic and len(sp) not in (3, 4):
-        rec.violation(fk + ":all_quadratic=False-length", "all_quadratic=False returned %d points" % len(sp), case=ctx)
+        V(rec, fk + ":all_quadratic=False-length", "all_quadratic=False returned %d points" % len(sp), ctx=ctx)
         return None
     if not all_quadratic and len(sp) == 4:
         ok, err = OC.check_cubic_vs_cubic(cub, sp, tol)
         rec.witness("result: cubic kept (all_quadratic=False)")
         if not ok:
-            rec.violation(fk + ":tolerance-cubic", "returned cubic deviates by %r > tolerance %r from %r" % (err, tol, tup(cub)), case=ctx,
-                          observed=err, expected="<= %r" % tol)
+            V(rec, fk + ":tolerance-cubic", "returned cubic deviates by %r > tolerance %r from %r" % (err, tol, tup(cub)), ctx=ctx,
+              observed=err, expected="<= %r" % tol)
         return 2
     res = OC.check_cubic_vs_spline(cub, sp, tol, force_exact=force_exact)
     if res["selfcheck"]:
-        rec.violation("oracle-selfcheck", res["selfcheck"], case=ctx)
+        V(rec, "oracle-selfcheck", res["selfcheck"], ctx=ctx)
     if res["exact_used"]:
         rec.witness("oracle: exact rational evaluation used")
     if not res["ok"]:
-        rec.violation(
-            fk + ":tolerance",
-            "curve %r tolerance %r all_quadratic=%s: %d-segment result deviates by %r (segment %d, s=%.6f) > tolerance"
-            % (tup(cub), tol, all_quadratic, res["n"], res["err"], res["seg"], res["s"]),
-            case=ctx, observed=res["err"], expected="<= %r * (1+1e-9)" % tol)
+        V(rec, fk + ":tolerance",
+          "curve %r tolerance %r all_quadratic=%s: %d-segment result deviates by %r (segment %d, s=%.6f) > tolerance"
+          % (tup(cub), tol, all_quadratic, res["n"], res["err"], res["seg"], res["s"]),
+          ctx=ctx, observed=res["err"], expected="<= %r * (1+1e-9)" % tol)
         return res["n"]
     n = res["n"]
     if n == 1:
@@ -147,14 +152,14 @@ def run_single(rec, cub, tol, aq, ctx, force_exact=False):
     except ApproxNotFoundError:
         rec.witness("ApproxNotFoundError raised")
         if not aq:
-            rec.violation("curve_to_quadratic:raise-unjustified", "all_quadratic=False raised although the cubic itself is an exact answer", case=ctx)
+            V(rec, "curve_to_quadratic:raise-unjustified", "all_quadratic=False raised although the cubic itself is an exact answer", ctx=ctx)
             return "raise"
         just, err = raise_justified(cub, tol)
         if just:
             rec.witness("raise justified: MAX_N-segment candidate misses the tolerance")
         else:
-            rec.violation("curve_to_quadratic:raise-unjustified",
-                          "ApproxNotFoundError for %r tolerance %r, but the %d-segment spline fits with error %r" % (tup(cub), tol, MAX_N, err), case=ctx)
+            V(rec, "curve_to_quadratic:raise-unjustified",
+              "ApproxNotFoundError for %r tolerance %r, but the %d-segment spline fits with error %r" % (tup(cub), tol, MAX_N, err), ctx=ctx)
         return "raise"
     return judge_spline(rec, "curve_to_quadratic", cub, r, tol, aq, ctx, force_exact)
 
@@ -165,22 +170,22 @@ def run_multi(rec, cubs, tols, aq, ctx):
     except ApproxNotFoundError:
         rec.witness("ApproxNotFoundError raised")
         if not aq:
-            rec.violation("curves_to_quadratic:raise-unjustified", "all_quadratic=False raised although the cubics themselves are an exact answer", case=ctx)
+            V(rec, "curves_to_quadratic:raise-unjustified", "all_quadratic=False raised although the cubics themselves are an exact answer", ctx=ctx)
             return "raise"
         js = [raise_justified(c, t) for c, t in zip(cubs, tols)]
         if any(j for j, _ in js):
             rec.witness("raise justified: MAX_N-segment candidate misses the tolerance")
         else:
-            rec.violation("curves_to_quadratic:raise-unjustified",
-                          "ApproxNotFoundError for %r tolerances %r, but the %d-segment splines all fit (errors %r)" % ([tup(c) for c in cubs], tols, MAX_N, [e for _, e in js]), case=ctx)
+            V(rec, "curves_to_quadratic:raise-unjustified",
+              "ApproxNotFoundError for %r tolerances %r, but the %d-segment splines all fit (errors %r)" % ([tup(c) for c in cubs], tols, MAX_N, [e for _, e in js]), ctx=ctx)
         return "raise"
     if not isinstance(rs, list) or len(rs) != len(cubs):
-        rec.violation("curves_to_quadratic:count", "%d curves in, %r out" % (len(cubs), rs), case=ctx)
+        V(rec, "curves_to_quadratic:count", "%d curves in, %r out" % (len(cubs), rs), ctx=ctx)
         return None
     lens = [len(r) for r in rs]
     if len(set(lens)) != 1:
-        rec.violation("curves_to_quadratic:length-mismatch", "splines of one call have %r points; curves %r tolerances %r all_quadratic=%s" % (lens, [tup(c) for c in cubs], tols, aq),
-                      case=ctx, observed=lens, expected="all equal")
+        V(rec, "curves_to_quadratic:length-mismatch", "splines of one call have %r points; curves %r tolerances %r all_quadratic=%s" % (lens, [tup(c) for c in cubs], tols, aq),
+          ctx=ctx, observed=lens, expected="all equal")
     ns = []
     for c, r, t in zip(cubs, rs, tols):
         ns.append(judge_spline(rec, "curves_to_quadratic", c, r, t, aq, ctx))
@@ -241,10 +246,13 @@ class CubicFamilies(Unit):
     name = "cubic-families"
     rule = ("scale / translation images of the lattice cubics: x0.01, x100, +(10^4,10^4) (thorough: also x100+(10^6,-10^6), +(-10200,300)) of every cubic with p0=(0,0) and p1..p3 on the 3x3 lattice "
             "(729; thorough: p0 free, 6561) x tolerance set x all_quadratic: same oracle as cubic-lattice (the oracle translates by p0 exactly); ApproxNotFoundError accepted only when the "
-            "100-segment candidate spline misses the tolerance; distinct = each (family,curve,tol,flag)")
+            "100-segment candidate spline misses the tolerance; MAX_N boundary: per curve two tolerances placed (from the oracle's own error of the 99/100/101-segment candidates) so that exactly "
+            "100 segments are needed / just not enough, single and in a pair; distinct = each (family,curve,tol,flag)")
     chunk = 4
     required_witnesses = ("ApproxNotFoundError raised", "raise justified: MAX_N-segment candidate misses the tolerance",
-                          "result: single quadratic", "result: spline of >= 10 segments", "error above 0.9 of the tolerance")
+                          "result: single quadratic", "result: spline of >= 10 segments", "error above 0.9 of the tolerance",
+                          "boundary: first fit with exactly MAX_N segments", "boundary: MAX_N segments miss, error raised",
+                          "boundary: pair converted with exactly MAX_N segments")
 
     def fams(self, tier):
         return ["x0.01", "x100", "+1e4"] + (["x100+1e6", "-1e4"] if tier == "thorough" else [])
@@ -254,12 +262,46 @@ class CubicFamilies(Unit):
             for i0 in (range(9) if tier == "thorough" else (0,)):
                 for i1, i2 in itertools.product(range(9), repeat=2):
                     yield [fam, i0, i1, i2]
+        for i1, i2 in itertools.product(range(9), repeat=2):
+            yield ["maxn", 0, i1, i2]
 
     def bounds(self, tier, seed):
         return {"families": self.fams(tier), "curves_per_family": 6561 if tier == "thorough" else 729, "tolerances": list(TOLS)}
 
+    def check_maxn(self, case, rec):
+        """Tolerances placed on both sides of the MAX_N boundary: with e_n the true error of the
+        n-segment candidate (measured by the oracle), tol = sqrt(e_99*e_100) is met with exactly
+        100 segments, tol = sqrt(e_100*e_101) only with 101 (so the call must raise)."""
+        _, i0, i1, i2 = case
+        n = 0
+        for i3 in range(9):
+            cub = [L3[i0], L3[i1], L3[i2], L3[i3]]
+            e = {}
+            for k in (MAX_N - 1, MAX_N, MAX_N + 1):
+                e[k] = OC.check_cubic_vs_spline(cub, OC.reference_spline(cub, k), float("inf"))["err"]
+            if not (e[MAX_N - 1] > 1.005 * e[MAX_N] > 1.005 * 1.005 * e[MAX_N + 1] > 0):
+                continue  # degenerate curve (no cubic term) or non-monotone errors: no boundary to aim at
+            hi = (e[MAX_N - 1] * e[MAX_N]) ** 0.5
+            lo = (e[MAX_N] * e[MAX_N + 1]) ** 0.5
+            n += 4
+            r = run_single(rec, cub, hi, True, ["maxn-fit", i1, i2, i3, hi])
+            if r == MAX_N:
+                rec.witness("boundary: first fit with exactly MAX_N segments")
+            if run_single(rec, cub, lo, True, ["maxn-miss", i1, i2, i3, lo]) == "raise":
+                rec.witness("boundary: MAX_N segments miss, error raised")
+            easy = [L3[0], L3[1], L3[4], L3[5]]
+            r = run_multi(rec, [cub, easy], (hi, 10.0), True, ["maxn-fit-pair", i1, i2, i3, hi])
+            if isinstance(r, list) and r[0] == MAX_N:
+                rec.witness("boundary: pair converted with exactly MAX_N segments")
+            run_multi(rec, [easy, cub], (10.0, lo), True, ["maxn-miss-pair", i1, i2, i3, lo])
+        if n:
+            rec.evals(n - 1)
+            rec.nontrivial_n(n)
+
     def check(self, case, rec):
         fam, i0, i1, i2 = case
+        if fam == "maxn":
+            return self.check_maxn(case, rec)
         scale, off = FAMILIES[fam]
         L = [p / 100 * scale + off for p in L3]
         n = nt = 0
@@ -285,13 +327,23 @@ def sub81(kind):
 S81 = {k: sub81(k) for k in ("row", "diag", "closed")}
 S27_IDX = [i1 * 9 + i2 for i1 in (0, 4, 8) for i2 in range(9)]
 TOL_PAIRS = [(a, b) for a in TOLS for b in TOLS]
+TOL_DIAG = [(a, a) for a in TOLS]
+TOL_MIXED = [(a, b) for a in TOLS for b in TOLS if a != b]
+
+
+def tol_pairs(tier, seed):
+    """thorough: all 16 per-curve tolerance pairs; quick: the 4 equal pairs + 6 of the 12 mixed
+    pairs, the seed choosing which half (seeds 0 and 1 together cover all 16)."""
+    if tier != "quick":
+        return TOL_PAIRS
+    return TOL_DIAG + [TOL_MIXED[(6 * seed + i) % 12] for i in range(6)]
 TOL_TRIPLES = [(a, a, a) for a in TOLS] + [(0.001, 10, 1), (10, 0.001, 0.5), (1, 0.5, 0.001), (0.5, 10, 10),
                                           (10, 1, 0.001), (0.001, 0.001, 10), (1, 10, 0.5), (0.5, 1, 10)]
 
 
 class CurvePairs(Unit):
     name = "curves-pairs"
-    rule = ("curves_to_quadratic on every ordered pair of the 81-curve sub-lattice (p0=(0,0), p3=(200,0), handles free on the 3x3 lattice) x all 16 per-curve tolerance pairs x all_quadratic {T,F} "
+    rule = ("curves_to_quadratic on every ordered pair of the 81-curve sub-lattice (p0=(0,0), p3=(200,0), handles free on the 3x3 lattice) x per-curve tolerance pairs (quick: 4 equal + 6 seed-chosen mixed of 12; thorough: all 16) x all_quadratic {T,F} "
             "(thorough: also the sub-lattices with p3=(200,200) and p0=p3=(100,100), and every ordered triple of a 27-curve subset x 12 tolerance triples); plus x100 images with tolerance 0.001 "
             "(no approximation within 100 segments) and x0.01 images x 4 tolerance pairs: all results of one call have the same number of points, each keeps its end points and stays within its own tolerance; "
             "ValueError on mismatched max_errors, [] for []; distinct = each (curves,tolerances,flag)")
@@ -302,11 +354,12 @@ class CurvePairs(Unit):
 
     def cases(self, tier, seed):
         yield ["api"]
+        tps = [list(t) for t in tol_pairs(tier, seed)]
         kinds = ("row",) if tier == "quick" else ("row", "diag", "closed")
         for kind in kinds:
             for a in range(81):
                 for blk in range(9):
-                    yield ["pair", kind, a, blk]
+                    yield ["pair", kind, a, blk, tps]
         for a in range(81):
             yield ["raise", a]
         for a in range(81):
@@ -317,7 +370,7 @@ class CurvePairs(Unit):
                     yield ["triple", a, b]
 
     def bounds(self, tier, seed):
-        return {"sublattices": ["row"] if tier == "quick" else ["row", "diag", "closed"], "pairs_per_sublattice": 6561, "tolerance_pairs": 16,
+        return {"sublattices": ["row"] if tier == "quick" else ["row", "diag", "closed"], "pairs_per_sublattice": 6561, "tolerance_pairs": [list(t) for t in tol_pairs(tier, seed)],
                 "triples": 0 if tier == "quick" else 27 ** 3, "tolerance_triples": len(TOL_TRIPLES)}
 
     def check(self, case, rec):
@@ -325,20 +378,20 @@ class CurvePairs(Unit):
         n = 0
         if kind == "api":
             if curves_to_quadratic([], []) != []:
-                rec.violation("curves_to_quadratic:empty", "curves_to_quadratic([], []) != []")
+                V(rec, "curves_to_quadratic:empty", "curves_to_quadratic([], []) != []")
             for errs in ([], [1.0, 1.0]):
                 try:
                     curves_to_quadratic([tup(S81["row"][5])], errs)
-                    rec.violation("curves_to_quadratic:max_errors-length", "max_errors %r accepted for one curve" % (errs,))
+                    V(rec, "curves_to_quadratic:max_errors-length", "max_errors %r accepted for one curve" % (errs,))
                 except ValueError:
                     rec.witness("api: mismatched max_errors rejected")
             rec.nontrivial_n(3)
             return
         if kind == "pair":
-            _, sub, a, blk = case
+            _, sub, a, blk, tps = case
             S = S81[sub]
             for b in range(blk * 9, blk * 9 + 9):
-                for ta, tb in TOL_PAIRS:
+                for ta, tb in tps:
                     for aq in (True, False):
                         n += 1
                         ns = run_multi(rec, [S[a], S[b]], (ta, tb), aq, [sub, a, b, ta, tb, aq])
@@ -399,25 +452,25 @@ def run_qu2cu(rec, quads, tol, all_cubic, ctx, as_complex=False):
     arg = [list(sp) for sp in quads] if as_complex else [tup(sp) for sp in quads]
     curves = quadratic_to_curves(arg, tol, all_cubic)
     if not isinstance(curves, list):
-        rec.violation("quadratic_to_curves:shape", "returned %r" % (curves,), case=ctx)
+        V(rec, "quadratic_to_curves:shape", "returned %r" % (curves,), ctx=ctx)
         return None
     if as_complex:
         if not all(isinstance(p, complex) for c in curves for p in c):
-            rec.violation("quadratic_to_curves:point-format", "complex input but output %r" % (curves,), case=ctx)
+            V(rec, "quadratic_to_curves:point-format", "complex input but output %r" % (curves,), ctx=ctx)
             return None
         cv = [tuple(c) for c in curves]
     else:
         if not all(isinstance(c, tuple) and all(isinstance(p, tuple) and len(p) == 2 for p in c) for c in curves):
-            rec.violation("quadratic_to_curves:point-format", "tuple input but output %r" % (curves,), case=ctx)
+            V(rec, "quadratic_to_curves:point-format", "tuple input but output %r" % (curves,), ctx=ctx)
             return None
         cv = [tuple(complex(*p) for p in c) for c in curves]
     if all_cubic and any(len(c) != 4 for c in cv):
-        rec.violation("quadratic_to_curves:all_cubic", "all_cubic=True returned a curve with %r points" % ([len(c) for c in cv],), case=ctx)
+        V(rec, "quadratic_to_curves:all_cubic", "all_cubic=True returned a curve with %r points" % ([len(c) for c in cv],), ctx=ctx)
     probs, info = OC.check_qu2cu_output(quads, cv, tol)
     for key, msg in probs:
-        rec.violation("quadratic_to_curves:" + key, "splines %r tolerance %r all_cubic=%s -> %r: %s" % ([tup(s) for s in quads], tol, all_cubic, curves, msg), case=ctx)
+        V(rec, "quadratic_to_curves:" + key, "splines %r tolerance %r all_cubic=%s -> %r: %s" % ([tup(s) for s in quads], tol, all_cubic, curves, msg), ctx=ctx)
     if info["selfcheck"]:
-        rec.violation("oracle-selfcheck", info["selfcheck"], case=ctx)
+        V(rec, "oracle-selfcheck", info["selfcheck"], ctx=ctx)
     if not probs:
         qu2cu_witnesses(rec, info, tol)
     return cv
@@ -437,11 +490,11 @@ class Qu2cuLattice(Unit):
         yield ["api"]
         for k in (1, 2, 3):
             for pre in itertools.product(range(9), repeat=k):
-                yield [k] + list(pre)
+                yield [k, "all"] + list(pre)
         firsts = range(9) if tier == "thorough" else (0,)
         for i0 in firsts:
             for pre in itertools.product(range(9), repeat=3):
-                yield [4, i0] + list(pre)
+                yield [4, "all" if tier == "thorough" else "3tol", i0] + list(pre)
 
     def bounds(self, tier, seed):
         return {"k": [1, 2, 3, 4], "k4_first_points": 9 if tier == "thorough" else 1, "tolerances": list(QTOLS), "all_cubic": [True, False]}
@@ -457,20 +510,20 @@ class Qu2cuLattice(Unit):
             for quads, tol in bad:
                 try:
                     r = quadratic_to_curves(quads, tol)
-                    rec.violation("quadratic_to_curves:invalid-accepted", "%r tolerance %r accepted -> %r" % (quads, tol, r))
+                    V(rec, "quadratic_to_curves:invalid-accepted", "%r tolerance %r accepted -> %r" % (quads, tol, r))
                 except ValueError:
                     rec.witness("api: invalid input rejected")
             if quadratic_to_curves([], 1.0) != []:
-                rec.violation("quadratic_to_curves:empty", "[] -> non-empty")
+                V(rec, "quadratic_to_curves:empty", "[] -> non-empty")
             rec.nontrivial_n(5)
             return
-        k, pre = case[0], case[1:]
+        k, tolset, pre = case[0], case[1], case[2:]
         n = 0
         for rest in itertools.product(range(9), repeat=k + 2 - len(pre)):
             idx = list(pre) + list(rest)
             sp = [L3[i] for i in idx]
             alt = sum(idx) % 16 == 0
-            for tol in QTOLS:
+            for tol in (QTOLS if tolset == "all" else (0.001, 10, 25)):
                 for ac in (False, True):
                     n += 1
                     cv = run_qu2cu(rec, [sp], tol, ac, [idx, tol, ac])
@@ -478,7 +531,7 @@ class Qu2cuLattice(Unit):
                         cv2 = run_qu2cu(rec, [sp], tol, ac, [idx, tol, ac, "complex"], as_complex=True)
                         rec.witness("complex-number input format")
                         if cv2 is not None and cv2 != cv:
-                            rec.violation("quadratic_to_curves:format-dependent", "tuple and complex inputs give different curves for %r" % (tup(sp),), case=[idx, tol, ac])
+                            V(rec, "quadratic_to_curves:format-dependent", "tuple and complex inputs give different curves for %r" % (tup(sp),), ctx=[idx, tol, ac])
         rec.evals(n - 1)
         rec.nontrivial_n(n)
 
@@ -556,14 +609,14 @@ def judge_curve_seg(rec, fk, cub, oseg, tol, aq, ctx):
     result = tup(pts)
     if kind == "curve":
         if len(pts) != 4:
-            rec.violation(fk + ":shape", "curve segment with %d points" % len(pts), case=ctx)
+            V(rec, fk + ":shape", "curve segment with %d points" % len(pts), ctx=ctx)
             return None
         if aq:
-            rec.violation(fk + ":cubic-left", "all_quadratic=True but a cubic segment was emitted: %r" % (result,), case=ctx)
+            V(rec, fk + ":cubic-left", "all_quadratic=True but a cubic segment was emitted: %r" % (result,), ctx=ctx)
             return None
         return judge_spline(rec, fk, cub, result, tol, False, ctx)
     if not aq and len(pts) != 3:
-        rec.violation(fk + ":all_quadratic=False-length", "all_quadratic=False emitted a %d-point quadratic spline" % len(pts), case=ctx)
+        V(rec, fk + ":all_quadratic=False-length", "all_quadratic=False emitted a %d-point quadratic spline" % len(pts), ctx=ctx)
         return None
     return judge_spline(rec, fk, cub, result, tol, True, ctx)
 
@@ -575,19 +628,19 @@ def check_contours(rec, fk, in_contours, out_contours, reverse, tols, aq, ctx):
     counts = []
     for m, (ins, outs) in enumerate(zip(in_contours, out_contours)):
         if len(ins) != len(outs):
-            rec.violation(fk + ":contour-count", "master %d: %d contours in, %d out" % (m, len(ins), len(outs)), case=ctx)
+            V(rec, fk + ":contour-count", "master %d: %d contours in, %d out" % (m, len(ins), len(outs)), ctx=ctx)
             return None
         mcounts = []
         for ci, (ic, oc) in enumerate(zip(ins, outs)):
             if ic["closed"] != oc["closed"]:
-                rec.violation(fk + ":open-closed", "master %d contour %d: closed=%s became closed=%s" % (m, ci, ic["closed"], oc["closed"]), case=ctx)
+                V(rec, fk + ":open-closed", "master %d contour %d: closed=%s became closed=%s" % (m, ci, ic["closed"], oc["closed"]), ctx=ctx)
                 return None
             if reverse:
                 oc = OP.unreverse(oc)
             pairs = OP.match_cyclic(ic["segs"], oc["segs"], ic["closed"])
             if pairs is None:
-                rec.violation(fk + ":structure", "master %d contour %d: output segments %r do not correspond one-to-one (same on-curve points, in order%s) to input %r"
-                              % (m, ci, [(k, tup(p)) for k, p in oc["segs"]], ", reversed" if reverse else "", [(k, tup(p)) for k, p in ic["segs"]]), case=ctx)
+                V(rec, fk + ":structure", "master %d contour %d: output segments %r do not correspond one-to-one (same on-curve points, in order%s) to input %r"
+                              % (m, ci, [(k, tup(p)) for k, p in oc["segs"]], ", reversed" if reverse else "", [(k, tup(p)) for k, p in ic["segs"]]), ctx=ctx)
                 return None
             for (ik, ip), oseg in pairs:
                 if ik == "curve":
@@ -595,10 +648,10 @@ def check_contours(rec, fk, in_contours, out_contours, reverse, tols, aq, ctx):
                     mcounts.append((oseg[0], len(oseg[1])))
                 elif ik == "qcurve":
                     if oseg[0] != "qcurve" or oseg[1] != ip:
-                        rec.violation(fk + ":qcurve-changed", "master %d: quadratic input segment %r came back as %r" % (m, tup(ip), (oseg[0], tup(oseg[1]))), case=ctx)
+                        V(rec, fk + ":qcurve-changed", "master %d: quadratic input segment %r came back as %r" % (m, tup(ip), (oseg[0], tup(oseg[1]))), ctx=ctx)
         counts.append(mcounts)
     if any(c != counts[0] for c in counts[1:]):
-        rec.violation(fk + ":masters-incompatible", "corresponding converted segments differ in kind/point count across masters: %r" % (counts,), case=ctx,
+        V(rec, fk + ":masters-incompatible", "corresponding converted segments differ in kind/point count across masters: %r" % (counts,), ctx=ctx,
                       observed=counts, expected="identical lists")
         return None
     return counts
@@ -626,12 +679,12 @@ def draw_cubic_contour(pen, cubs, closed=True):
 
 class Pens(Unit):
     name = "pens"
-    rule = ("Cu2QuPen and Cu2QuPointPen on a closed and an open contour 'cubic, line' for every cubic with p0=(0,0), p1..p3 on the 3x3 lattice (729) x tolerance set x all_quadratic x reverse_direction; "
+    rule = ("Cu2QuPen and Cu2QuPointPen on a closed and an open contour 'cubic, line, cubic, line' for every cubic with p0=(0,0), p1..p3 on the 3x3 lattice (729) x tolerance set x all_quadratic x reverse_direction; "
             "Cu2QuMultiPen on every ordered pair of the 27-curve subset (thorough: 81) x tolerance set x reverse; Qu2CuPen on 'spline, line' contours for every spline with 2..3 off-curve points "
-            "(first point (0,0)) x {1,10,25} x all_cubic x reverse: lines unchanged, converted segment has the input's on-curve points, stays within tolerance, reversed output is the reversed "
+            "(first point (0,0)) and on 'spline, spline, line' contours of two 2-off-curve splines joined at an explicit on-curve point (joint and its neighbours free on the 2x3 lattice) x {1,10,25} x all_cubic x reverse: lines unchanged, converted segment has the input's on-curve points, stays within tolerance, reversed output is the reversed "
             "contour, multi-pen outputs have equal point counts; distinct = each (pen,contour,options)")
     chunk = 2
-    required_witnesses = ("pen: Cu2QuPen", "pen: Cu2QuPointPen", "pen: Cu2QuMultiPen", "pen: Qu2CuPen", "reverse_direction", "open contour",
+    required_witnesses = ("pen: Cu2QuPen", "pen: Cu2QuPointPen", "pen: Cu2QuMultiPen", "pen: Qu2CuPen", "pen: Qu2CuPen with two splines", "reverse_direction", "open contour",
                           "result: cubic kept (all_quadratic=False)", "result: spline of >= 10 segments", "cubic replaces >= 2 quadratic segments")
 
     def cases(self, tier, seed):
@@ -643,6 +696,9 @@ class Pens(Unit):
         for k in (2, 3):
             for pre in itertools.product(range(9), repeat=k - 1):
                 yield ["qu2cu", k] + list(pre)
+        for o1 in (1, 4):
+            for o4 in (1, 5):
+                yield ["qu2cu2", o1, o4]
 
     def bounds(self, tier, seed):
         return {"cu2qu_curves": 729, "multipen_pairs": 27 ** 2 if tier == "quick" else 81 ** 2, "qu2cu_splines": 9 ** 3 + 9 ** 4}
@@ -654,6 +710,7 @@ class Pens(Unit):
             _, i1, i2 = case
             for i3 in range(9):
                 cub = [L3[0], L3[i1], L3[i2], L3[i3]]
+                cub2 = [L3[i2], L3[i3], L3[0], L3[i1]]  # a second, different lattice cubic after a line
                 for tol in TOLS:
                     for aq in (True, False):
                         for rev in (False, True):
@@ -661,7 +718,7 @@ class Pens(Unit):
                                 n += 2
                                 ctx = ["Cu2QuPen", i1, i2, i3, tol, aq, rev, closed]
                                 src = RecordingPen()
-                                draw_cubic_contour(src, [cub], closed)
+                                draw_cubic_contour(src, [cub, cub2], closed)
                                 ins = OP.contours_from_pen(src.value)
                                 out = RecordingPen()
                                 src.replay(Cu2QuPen(out, tol, reverse_direction=rev, all_quadratic=aq))
@@ -673,7 +730,7 @@ class Pens(Unit):
                                     rec.witness("open contour")
                                 check_contours(rec, "Cu2QuPen", [ins], [outs], rev, [tol], aq, ctx)
                                 if closed and outs and outs[0]["start"] != ins[0]["start"]:
-                                    rec.violation("Cu2QuPen:start-point", "closed contour starts at %r, input at %r" % (outs[0]["start"], ins[0]["start"]), case=ctx)
+                                    V(rec, "Cu2QuPen:start-point", "closed contour starts at %r, input at %r" % (outs[0]["start"], ins[0]["start"]), ctx=ctx)
                                 # point pen protocol
                                 ctx = ["Cu2QuPointPen"] + ctx[1:]
                                 psrc = RecordingPointPen()
@@ -709,6 +766,24 @@ class Pens(Unit):
                         if rev:
                             rec.witness("reverse_direction")
                         check_contours(rec, "Cu2QuMultiPen", ins, [OP.contours_from_pen(o.value) for o in outs], rev, [tol, tol], True, ctx)
+        elif kind == "qu2cu2":
+            # two consecutive qCurveTo splines of 2 off-curve points each, joined at an explicit
+            # on-curve point K: P0 o1 o2 K | K o3 o4 P1 with o2, K, o3 free on the 2x3 lattice
+            _, o1, o4 = case
+            for i2, iK, i3 in itertools.product(range(6), repeat=3):
+                s1 = [L23[0], L23[o1], L23[i2], L23[iK]]
+                s2 = [L23[iK], L23[i3], L23[o4], L23[5]]
+                for tol in (1, 10, 25):
+                    for ac in (False, True):
+                        for rev in (False, True):
+                            n += 1
+                            ctx = ["Qu2CuPen2", o1, i2, iK, i3, o4, tol, ac, rev]
+                            out = RecordingPen()
+                            pen = Qu2CuPen(out, tol, all_cubic=ac, reverse_direction=rev)
+                            a, b = tup(s1), tup(s2)
+                            pen.moveTo(a[0]); pen.qCurveTo(*a[1:]); pen.qCurveTo(*b[1:]); pen.lineTo((FAR.real, FAR.imag)); pen.closePath()
+                            rec.witness("pen: Qu2CuPen with two splines")
+                            self.check_qu2cu_pen(rec, [s1, s2], out.value, tol, ac, rev, ctx)
         else:
             k, pre = case[1], case[2:]
             for rest in itertools.product(range(9), repeat=k + 1 - len(pre)):
@@ -726,47 +801,48 @@ class Pens(Unit):
                             rec.witness("pen: Qu2CuPen")
                             if rev:
                                 rec.witness("reverse_direction")
-                            self.check_qu2cu_pen(rec, sp, out.value, tol, ac, rev, ctx)
+                            self.check_qu2cu_pen(rec, [sp], out.value, tol, ac, rev, ctx)
         rec.evals(max(0, n - 1))
         rec.nontrivial_n(n)
 
-    def check_qu2cu_pen(self, rec, sp, value, tol, ac, rev, ctx):
+    def check_qu2cu_pen(self, rec, quads, value, tol, ac, rev, ctx):
+        p_start, p_end = quads[0][0], quads[-1][-1]
         outs = OP.contours_from_pen(value)
         if len(outs) != 1 or not outs[0]["closed"]:
-            rec.violation("Qu2CuPen:structure", "expected one closed contour, got %r" % (value,), case=ctx)
+            V(rec, "Qu2CuPen:structure", "expected one closed contour, got %r" % (value,), ctx=ctx)
             return
         oc = OP.unreverse(outs[0]) if rev else outs[0]
-        if outs[0]["start"] != sp[0]:
-            rec.violation("Qu2CuPen:start-point", "contour starts at %r, input at %r" % (outs[0]["start"], sp[0]), case=ctx)
+        if outs[0]["start"] != p_start:
+            V(rec, "Qu2CuPen:start-point", "contour starts at %r, input at %r" % (outs[0]["start"], p_start), ctx=ctx)
             return
         segs = oc["segs"]
         # expected tail: line end->FAR, line FAR->start ; everything before replaces the spline
-        tail = [("line", [sp[-1], FAR]), ("line", [FAR, sp[0]])]
+        tail = [("line", [p_end, FAR]), ("line", [FAR, p_start])]
         for r0 in range(len(segs)):
             rot = segs[r0:] + segs[:r0]
-            if rot[-2:] == tail and all(kk != "line" for kk, _ in rot[:-2]) and rot[0][1][0] == sp[0]:
+            if rot[-2:] == tail and all(kk != "line" for kk, _ in rot[:-2]) and rot[0][1][0] == p_start:
                 break
         else:
-            rec.violation("Qu2CuPen:structure", "output %r is not 'curves from %r to %r, line, closing line'" % ([(kk, tup(p)) for kk, p in segs], sp[0], sp[-1]), case=ctx)
+            V(rec, "Qu2CuPen:structure", "output %r is not 'curves from %r to %r, line, closing line'" % ([(kk, tup(p)) for kk, p in segs], p_start, p_end), ctx=ctx)
             return
         curves = []
         for kk, p in rot[:-2]:
             if kk == "curve":
                 if len(p) != 4:
-                    rec.violation("Qu2CuPen:shape", "curveTo with %d points" % (len(p) - 1), case=ctx)
+                    V(rec, "Qu2CuPen:shape", "curveTo with %d points" % (len(p) - 1), ctx=ctx)
                     return
                 curves.append(tuple(p))
             else:
                 if ac:
-                    rec.violation("Qu2CuPen:all_cubic", "all_cubic=True emitted a qCurveTo", case=ctx)
+                    V(rec, "Qu2CuPen:all_cubic", "all_cubic=True emitted a qCurveTo", ctx=ctx)
                     return
                 on0, offs, on1 = OC.spline_onoff(p)
                 curves.extend((a, b, c) for a, b, c in zip(on0, offs, on1))
-        probs, info = OC.check_qu2cu_output([sp], curves, tol)
+        probs, info = OC.check_qu2cu_output(quads, curves, tol)
         for key, msg in probs:
-            rec.violation("Qu2CuPen:" + key, "spline %r tolerance %r all_cubic=%s reverse=%s -> %r: %s" % (tup(sp), tol, ac, rev, value, msg), case=ctx)
+            V(rec, "Qu2CuPen:" + key, "splines %r tolerance %r all_cubic=%s reverse=%s -> %r: %s" % ([tup(q) for q in quads], tol, ac, rev, value, msg), ctx=ctx)
         if info["selfcheck"]:
-            rec.violation("oracle-selfcheck", info["selfcheck"], case=ctx)
+            V(rec, "oracle-selfcheck", info["selfcheck"], ctx=ctx)
         if not probs:
             qu2cu_witnesses(rec, info, tol)
 
@@ -814,7 +890,7 @@ class UfoMasters(Unit):
             "distinct = each (pair,options)")
     chunk = 2
     required_witnesses = ("glyphs_to_quadratic", "fonts_to_quadratic", "reverse_direction", "per-master tolerances", "result: cubic kept (all_quadratic=False)",
-                          "result: spline of >= 10 segments", "masters forced to a common segment count", "incompatible masters rejected", "open contour")
+                          "result: spline of >= 10 segments", "masters forced to a common segment count", "incompatible masters rejected", "open contour", "empty master skipped")
 
     def cases(self, tier, seed):
         yield ["incompatible"]
@@ -838,7 +914,7 @@ class UfoMasters(Unit):
             g2 = make_glyph("a", [S[10], S[11]])
             try:
                 _ufo.glyphs_to_quadratic([g1, g2])
-                rec.violation("glyphs_to_quadratic:incompatible-accepted", "different segment numbers accepted")
+                V(rec, "glyphs_to_quadratic:incompatible-accepted", "different segment numbers accepted")
             except IncompatibleSegmentNumberError:
                 rec.witness("incompatible masters rejected")
             g3 = DuckGlyph("a")
@@ -846,7 +922,7 @@ class UfoMasters(Unit):
             p.moveTo((0.0, 0.0)); p.lineTo((100.0, 100.0)); p.lineTo((1000.0, 500.0)); p.closePath()
             try:
                 _ufo.glyphs_to_quadratic([make_glyph("a", [S[10]]), g3])
-                rec.violation("glyphs_to_quadratic:incompatible-accepted", "curve vs line accepted")
+                V(rec, "glyphs_to_quadratic:incompatible-accepted", "curve vs line accepted")
             except IncompatibleSegmentTypesError:
                 rec.witness("incompatible masters rejected")
             f1, f2 = DuckFont(1000), DuckFont(1000)
@@ -854,13 +930,13 @@ class UfoMasters(Unit):
             f2["a"] = g3
             try:
                 _ufo.fonts_to_quadratic([f1, f2])
-                rec.violation("fonts_to_quadratic:incompatible-accepted", "curve vs line accepted")
+                V(rec, "fonts_to_quadratic:incompatible-accepted", "curve vs line accepted")
             except IncompatibleFontsError:
                 rec.witness("incompatible masters rejected")
             for bad in (0, -1, [1.0]):
                 try:
                     _ufo.glyphs_to_quadratic([make_glyph("a", [S[10]]), make_glyph("a", [S[12]])], max_err=bad)
-                    rec.violation("glyphs_to_quadratic:bad-max_err-accepted", "max_err=%r accepted" % (bad,))
+                    V(rec, "glyphs_to_quadratic:bad-max_err-accepted", "max_err=%r accepted" % (bad,))
                 except ValueError:
                     pass
             rec.nontrivial_n(6)
@@ -890,6 +966,17 @@ class UfoMasters(Unit):
                                 rec.witness("open contour")
                             tols = list(err) if isinstance(err, tuple) else [err, err]
                             self.judge(rec, "glyphs_to_quadratic", glyphs, ins, before, modified, rev, tols, aq, ctx)
+                            if isinstance(err, tuple) and b % 9 == 0:
+                                # an empty master in front: documented to be skipped, the others keep their own tolerance
+                                n += 1
+                                glyphs = [DuckGlyph("g"), make_glyph("g", [S[a], S[b]], closed), make_glyph("g", [S[b], S[a]], closed)]
+                                ins = [OP.contours_from_pointpen(g.rec.value) for g in glyphs[1:]]
+                                before = [list(g.rec.value) for g in glyphs[1:]]
+                                modified = _ufo.glyphs_to_quadratic(glyphs, max_err=[25.0] + list(err), reverse_direction=rev, all_quadratic=aq)
+                                rec.witness("empty master skipped")
+                                if len(glyphs[0]) != 0:
+                                    V(rec, "glyphs_to_quadratic:empty-changed", "empty glyph got contours", ctx=ctx + ["empty-first"])
+                                self.judge(rec, "glyphs_to_quadratic", glyphs[1:], ins, before, modified, rev, tols, aq, ctx + ["empty-first"])
         else:
             a = case[1]
             blk = [(a + 9 * j) % 81 for j in range(9)]
@@ -898,7 +985,7 @@ class UfoMasters(Unit):
                     for aq in (True, False):
                         n += 1
                         ctx = ["fonts", a, opt, rev, aq]
-                        fonts = [DuckFont(1000), DuckFont(2000)]
+                        fonts = [DuckFont(2000), DuckFont(1000)]
                         names = []
                         for j, b in enumerate(blk):
                             nm = "g%d" % j
@@ -909,8 +996,8 @@ class UfoMasters(Unit):
                         fonts[0]["empty"] = DuckGlyph("empty")
                         fonts[1]["empty"] = DuckGlyph("empty")
                         kw, tols = {
-                            "em": ({"max_err_em": 0.001}, [1.0, 2.0]),
-                            "em-list": ({"max_err_em": [0.01, 0.00025]}, [10.0, 0.5]),
+                            "em": ({"max_err_em": 0.001}, [2.0, 1.0]),
+                            "em-list": ({"max_err_em": [0.00025, 0.01]}, [0.5, 10.0]),
                             "abs": ({"max_err": 0.5}, [0.5, 0.5]),
                             "abs-list": ({"max_err": [0.001, 10]}, [0.001, 10]),
                         }[opt]
@@ -919,14 +1006,14 @@ class UfoMasters(Unit):
                         modified = _ufo.fonts_to_quadratic(fonts, reverse_direction=rev, all_quadratic=aq, **kw)
                         rec.witness("fonts_to_quadratic")
                         if not isinstance(modified, set):
-                            rec.violation("fonts_to_quadratic:return", "returned %r, a set of glyph names is documented" % (modified,), case=ctx)
+                            V(rec, "fonts_to_quadratic:return", "returned %r, a set of glyph names is documented" % (modified,), ctx=ctx)
                             continue
                         want = "quadratic" if aq else "mixed"
                         for f in fonts:
                             if f.lib.get(_ufo.CURVE_TYPE_LIB_KEY) != want:
-                                rec.violation("fonts_to_quadratic:lib-key", "curve type key is %r, expected %r" % (f.lib.get(_ufo.CURVE_TYPE_LIB_KEY), want), case=ctx)
+                                V(rec, "fonts_to_quadratic:lib-key", "curve type key is %r, expected %r" % (f.lib.get(_ufo.CURVE_TYPE_LIB_KEY), want), ctx=ctx)
                         if "empty" in modified:
-                            rec.violation("fonts_to_quadratic:empty-modified", "empty glyph reported modified", case=ctx)
+                            V(rec, "fonts_to_quadratic:empty-modified", "empty glyph reported modified", ctx=ctx)
                         for nm in names + ["only0"]:
                             gl = [f[nm] for f in fonts if nm in f]
                             t = tols if len(gl) == 2 else tols[:1]
@@ -934,7 +1021,7 @@ class UfoMasters(Unit):
                         # second call: documented to skip fonts already marked converted
                         again = _ufo.fonts_to_quadratic(fonts, reverse_direction=rev, all_quadratic=aq, **kw)
                         if again:
-                            rec.violation("fonts_to_quadratic:reconverted", "second call on converted fonts returned %r" % (again,), case=ctx)
+                            V(rec, "fonts_to_quadratic:reconverted", "second call on converted fonts returned %r" % (again,), ctx=ctx)
         rec.evals(max(0, n - 1))
         rec.nontrivial_n(n)
 
@@ -942,9 +1029,9 @@ class UfoMasters(Unit):
         after = [list(g.rec.value) for g in glyphs]
         if not modified:
             if aq or rev:
-                rec.violation(fk + ":not-modified", "cubic glyphs reported unmodified with all_quadratic=%s reverse=%s" % (aq, rev), case=ctx)
+                V(rec, fk + ":not-modified", "cubic glyphs reported unmodified with all_quadratic=%s reverse=%s" % (aq, rev), ctx=ctx)
             if after != before:
-                rec.violation(fk + ":modified-silently", "reported unmodified but the outline changed", case=ctx)
+                V(rec, fk + ":modified-silently", "reported unmodified but the outline changed", ctx=ctx)
             return
         outs = [OP.contours_from_pointpen(v) for v in after]
         counts = check_contours(rec, fk, ins, outs, rev, tols, aq, ctx)
